@@ -849,7 +849,11 @@ def judge_direct(t, d, rep, direct):
 def cross_checks(ctx, rep, direct, seed):
     """fresh interpreter processes with different PYTHONHASHSEED (and different activity before the seed)"""
     hist = ["rand()", "sample(Binomial(5, 1/3))", "sample(Poisson(3), 4)", "sample(Gaussian(0, 1))", "sample(UniformInt(1, 6), 5)",
-            "sample(Geometric(1/5), 3)", "sample(Exponential(2))", "sample(Uniform(0, 10), 2)", "rand()"]
+            "sample(Geometric(1/5), 3)", "sample(Exponential(2))", "sample(Uniform(0, 10), 2)", "rand()",
+            # draws made inside comprehensions: in the body, in one generator, in two generators (evaluated in source order)
+            "{sample(UniformInt(1, 6)) : i in 1..5}", "{rand() : i in 1..3}", "{x : x in sample(UniformInt(0, 99), 4)}",
+            "{100*x + y : x in sample(UniformInt(0, 99), 4), y in sample(UniformInt(0, 99), 4)}",
+            "{a + b + c : a in sample(Bernoulli(1/2), 3), b in sample(Poisson(2), 3), c in sample(UniformInt(1, 9), 3)}", "rand()"]
     for k in ([7, -3, 2 ** 70] if ctx["tier"] == "quick" else [7, -3, 2 ** 70, 0, 123456789, seed + 5]):
         texts = ["seed(%s)" % num_text(k)] + hist
         a, rca, ea = cross_process(texts, [], 1, ctx["rundir"])
@@ -863,6 +867,15 @@ def cross_checks(ctx, rep, direct, seed):
             j = next(i for i, (x, y) in enumerate(zip(a, b)) if x != y)
             rep.violation(dict(kind="seed-not-determining", where="fresh processes"),
                           "C18 fails: after seed(%s), %s prints %r in one fresh process and %r in another (PYTHONHASHSEED 1 vs 987654)" % (k, texts[j], a[j], b[j]), rp)
+            continue
+        for hs in (0, 2, 5):            # string hashing differs per PYTHONHASHSEED: nothing about the draws may depend on it
+            c, rcc, ec = cross_process(texts, [], hs, ctx["rundir"])
+            direct["repro_runs"] += len(texts)
+            if rcc == 0 and c != a:
+                j = next(i for i, (x, y) in enumerate(zip(a, c)) if x != y)
+                rep.violation(dict(kind="seed-not-determining", where="fresh processes"),
+                              "C18 fails: after seed(%s), %s prints %r under PYTHONHASHSEED=1 and %r under PYTHONHASHSEED=%d" % (k, texts[j], a[j], c[j], hs), rp)
+                break
     direct["cross_process_pairs"] = 3 if ctx["tier"] == "quick" else 6
 
 
